@@ -692,6 +692,32 @@ fn scaling(thorough: bool) -> Stats {
         if let Some(f) = listing_ok(&real, &model) {
             st.violation(mk(format!("{} variables cleared", n), f));
         }
+        // one expression assigning n variables (a chain of n statements), then one with n op-assigns
+        {
+            let mut c = HCtx::new();
+            let mut m = RCtx::new();
+            let program: String = (0..n).map(|i| format!("w{} = {}; ", i, i)).collect::<String>() + "w0";
+            let r = evalexpr::eval_with_context_mut(&program, &mut c);
+            for i in 0..n {
+                m.vars.insert(format!("w{}", i), RV::Int(i as i64));
+            }
+            st.transitions += n as u64;
+            if !matches!(&r, Ok(Value::Int(0))) {
+                st.violation(mk(format!("one expression with {} assignments `w0 = 0; w1 = 1; ...; w0`", n), format!("returned {:?}", r)));
+            } else if let Some(f) = listing_ok(&c, &m) {
+                st.violation(mk(format!("one expression with {} assignments `w0 = 0; w1 = 1; ...`", n), f));
+            }
+            let bump: String = (0..n).map(|i| format!("w{} += {}; ", i, i + 1)).collect::<String>() + "(w0, w0)";
+            let r = evalexpr::eval_with_context_mut(&bump, &mut c);
+            for i in 0..n {
+                m.vars.insert(format!("w{}", i), RV::Int(2 * i as i64 + 1));
+            }
+            if r.is_err() {
+                st.violation(mk(format!("one expression with {} op-assignments `w0 += 1; w1 += 2; ...`", n), format!("returned {:?}", r)));
+            } else if let Some(f) = listing_ok(&c, &m) {
+                st.violation(mk(format!("one expression with {} op-assignments", n), f));
+            }
+        }
         // a long single-variable history: n op-assigns
         let mut c = HCtx::new();
         let mut m = RCtx::new();
